@@ -87,6 +87,7 @@ def generate(seed, tier="quick"):
     else:
         fmt = {"kind": kind}
     return {"program": prog, "fmt": fmt, "flags": sub(seed, "flags").choice(["create,fix,trim", "create,fix", "create,fix,trim,update"]),
+            "hash_length": [None, 8, None, 64][i % 4],  # (64 = the whole hash: references are written without the "*" that matches the "-new" infix)
             "old_external": sub(seed, "old").random() < 0.6, "inline": (seed % 10**6) % 3 == 0, "max_points": 32 if tier == "quick" else 400, "early_points": 4 if tier == "quick" else 60}
 
 
@@ -130,7 +131,7 @@ def execute(case, ctx):
             out["violations"].append({"clause": clause, "sig": sig, "detail": detail, "point": cur[0]})
 
     files, orders = P.render(prog, drivers.simlib_text())
-    files["pyproject.toml"] = sim.pyproject_for(fmt)
+    files["pyproject.toml"] = sim.pyproject_for(fmt, tool={"hash-length": case["hash_length"]} if case.get("hash_length") else None)
     if case.get("old_external"):
         files[f".inline-snapshot/external/{c13.hashlib.sha256(b'stale').hexdigest()}.txt"] = b"stale"
     pre = sim.to_bytes(files)
